@@ -579,6 +579,8 @@ struct Ctx {
     float_exact: [u64; 3],
     /// the readers' nesting limits as the model states them (json, yaml, toml)
     depth_limits: [usize; 3],
+    /// the writer's nesting limit as the model states it
+    writer_limit: usize,
     k_fail: u64,
     d_fail: u64,
 }
@@ -646,7 +648,7 @@ impl Ctx {
             self.viol_k("Model.norm (norm_idem evaluated)", json!({"input": req, "model": resp}));
         }
         let m_writes = m_ser != "err";
-        if m_sz != m_writes && t.depth_all() <= 128 {
+        if m_sz != m_writes && t.depth_all() <= self.writer_limit {
             self.viol_k("Model.serW vs serializable", json!({"input": req, "model": resp}));
         }
         if m_writes && m_rt != m_norm {
@@ -2340,7 +2342,20 @@ fn main() {
     rep.rule = "cases: (1) value trees (seeded generator, nesting ≤ 5, string/int/float pools + random bit patterns; corpus; finding witnesses) through serialize.rs→recorder, and through json/yaml/toml to_string∘from_string twice; (2) serde-data-model trees replayed into KValueVisitor; (3) values of a family of Rust types through to_koto_value/from_koto_value, plus edited Koto values into from_koto_value, plus an integer-bounds grid; (4) hand-written and corrupted documents into the three parsers (worker process). distinct = distinct canonical request lines; non-trivial = tree with ≥ 3 nodes / data-model tree with ≥ 2 nodes / Rust value other than a bare scalar / document of ≥ 2 bytes".into();
     let open: Vec<String> = rep.known_open().iter().filter_map(|e| e.get("id").and_then(|x| x.as_str()).map(|s| s.to_string())).collect();
     let drv = Driver::spawn(&args.driver);
-    let mut cx = Ctx { rep, drv, libs: Libs::new(), open, known_counts: Default::default(), float_exact: [0; 3], depth_limits: [127, 128, 81], k_fail: 0, d_fail: 0 };
+    let mut cx = Ctx { rep, drv, libs: Libs::new(), open, known_counts: Default::default(), float_exact: [0; 3], depth_limits: [127, 128, 81], writer_limit: 128, k_fail: 0, d_fail: 0 };
+    {
+        let lim = cx.drv.ask("limits");
+        for (i, f) in FORMATS.iter().enumerate() {
+            match field(&lim, f).parse::<usize>() {
+                Ok(n) => cx.depth_limits[i] = n,
+                Err(_) => cx.viol_k("driver limits", json!({"response": lim})),
+            }
+        }
+        match field(&lim, "writer").parse::<usize>() {
+            Ok(n) => cx.writer_limit = n,
+            Err(_) => cx.viol_k("driver limits", json!({"response": lim})),
+        }
+    }
     let mut worker = kvh::worker::Worker::spawn(&["--worker".to_string()]);
     let thorough = args.thorough();
 
@@ -2458,18 +2473,11 @@ fn main() {
 
     // ---- 3b. nesting depth around the readers' limits (F-C20-5) ----
     {
-        let lim = cx.drv.ask("limits");
-        for (i, f) in FORMATS.iter().enumerate() {
-            match field(&lim, f).parse::<usize>() {
-                Ok(n) => cx.depth_limits[i] = n,
-                Err(_) => cx.viol_k("driver limits", json!({"response": lim})),
-            }
-        }
         let mut depths: Vec<usize> = vec![];
         for l in cx.depth_limits {
             depths.extend([l - 1, l, l + 1, l + 2]);
         }
-        depths.extend([100, 200]);
+        depths.extend([100, 200, cx.writer_limit - 1, cx.writer_limit, cx.writer_limit + 1]);
         if thorough {
             depths.extend([300, 400]);
         }
@@ -2510,7 +2518,7 @@ fn main() {
             .collect();
         cx.check_graph(&mut worker, &nodes);
     }
-    for n in [127usize, 128, 129, 130] {
+    for n in [cx.writer_limit - 1, cx.writer_limit, cx.writer_limit + 1, cx.writer_limit + 2] {
         // a chain of n distinct lists / maps: the writer's nesting limit on the graph
         let nodes: Vec<String> = (0..n).map(|i| if i + 1 < n { format!("{} r{}", if i % 3 == 2 { "m" } else { "l" }, i + 1) } else { "l n1".to_string() }).collect();
         cx.check_graph(&mut worker, &nodes);
@@ -2613,6 +2621,7 @@ fn main() {
                 fails
             }
             "F-C20-6" => matches!(cx.libs.from_string("json", "-9223372036854775809"), Ok(Ok(_))) || matches!(cx.libs.from_string("json", "18446744073709551616"), Ok(Ok(_))),
+            "F-C20-7" => !matches!(worker.request("fromcyc nest-cyclic-list", Duration::from_secs(30)), kvh::worker::Reply::Ok(s) if s == "err"),
             "F-C20-2" => {
                 let x: NestedOpt = Some(None);
                 let y: OptUnit = Some(());
